@@ -56,7 +56,7 @@ def run(ctx):
     def blk_(n_):
         dd_ = (xzgen.gen_runs(rng, 3000) * (n_ // 3000 + 1))[:n_] if n_ > 100000 else xzgen.gen_data(rng, n_)
         return (dd_, [{'id': 'lzma2', 'dict_size': 65536, 'lc': 3, 'lp': 0, 'pb': 2, 'mode': _lz0.MODE_FAST, 'nice_len': 32, 'mf': _lz0.MF_HC4}], {'comp_present': True, 'uncomp_present': True})
-    for shape in ([(4000, 2 << 20, 4000), (2 << 20, 3000, 3000, 5000)] if ctx.quick() else [(4000, 2 << 20, 4000), (2 << 20, 3000, 3000, 5000), (3000, 3000, 3 << 20, 3000, 9000), (1 << 20, 1 << 20, 4000), (4000, 1 << 21, 1 << 20)]):
+    for shape in ([(4000, 2 << 20, 4000), (2 << 20, 3000, 3000, 5000), (6 << 20, 3000)] if ctx.quick() else [(4000, 2 << 20, 4000), (2 << 20, 3000, 3000, 5000), (3000, 3000, 3 << 20, 3000, 9000), (1 << 20, 1 << 20, 4000), (4000, 1 << 21, 1 << 20)]):
         spec_ = [blk_(n_) for n_ in shape]
         parts = [xzgen.block(d_, ch_, 1, rng, **kw_) for d_, ch_, kw_ in spec_]
         body = b''.join(p_[0] for p_ in parts); ix = xzgen.index([(p_[1], p_[2]) for p_ in parts])
@@ -75,6 +75,12 @@ def run(ctx):
             ml = rng.choice([0, 0, 0, 1 << 20, 200000, 1])
             flags = LZMA_CONCATENATED | rng.choice([0, 0, 0x20])      # FAIL_FAST sometimes
             lines.append('dec 1 %d %d %d %d %s' % (flags, mode, seed, ml, f.hex())); meta.append((fi, flags, seed, mode, ml))
+        if ref[fi] is not None and ref[fi][2] > 200000:
+            # 1 ms time-outs while a worker is busy with a long Block and no input is left: many calls return without progress
+            # (LZMA_OK after a time-out, never LZMA_BUF_ERROR while a worker is still running)
+            for sd in range(6 if ctx.quick() else 20):
+                seed = rng.randrange(1 << 16) * 16 + 8 + rng.choice([1, 2, 3])
+                lines.append('dec 1 %d %d %d 0 %s' % (LZMA_CONCATENATED, rng.choice([0, 0, 7, 3]), seed, f.hex())); meta.append((fi, LZMA_CONCATENATED, seed, 0, 0))
         if ref[fi] is not None and ref[fi][2] > 200000 and ref[fi][0] != 1:
             # long-running Block + truncated input: more schedules, with fewer threads than Blocks
             for sd in range(10 if ctx.quick() else 40):
